@@ -17,6 +17,17 @@ prop('C18',
   "Not decided: histories of length 60, slot reuse under re-entrant OFPP_TABLE, contents of emitted packets.",
   "custom AST/CFG checker: ownership (who-may-write), guard dominance, post-dominance, effect intervals, def-use", "DESIGN.md 5/C18")
 
+prop('C13',
+  "Static analysis of /repo's current source: decides on all paths the structural necessary conditions of request/reply - every "
+  "controller-originated message type (registry re-derived from the decorators, compared with the OF1.0 type table) has the handler "
+  "the switch's naming convention selects; each of the six request kinds produces exactly one send/send_error on every path "
+  "(effect intervals with callee summaries; stats handlers partitioned by None/non-None return); reply constructors are the "
+  "spec's reply class with xid=<request>.xid and are the object sent; every send_error carries ofp=<request> and a code of its "
+  "type's family (spec table); handlers are synchronous (no generator, no deferral); request-keyed dictionary lookups are guarded; "
+  "all names are defined. Decides these conditions, not reply contents or behaviour through the byte connection.",
+  "Not decided: reply contents (counters, descriptions), sequences through the byte connection, encoder soundness of reply classes (C01).",
+  "custom AST/CFG checker: registry exhaustiveness, effect intervals (exactly-once), def-use agreement, guard dominance, definiteness", "DESIGN.md 5/C13")
+
 NOT_APPLICABLE = {
   'C16': "Address types: the statement is about numeric/textual agreement over the whole address domain (byte order, mask arithmetic, CIDR parsing, zero-run compression, round trips, rejection of malformed text) - results of computations on runtime values; no shape-level rule is a necessary and telling condition for it (DESIGN.md section 7).",
 }
